@@ -139,6 +139,22 @@ CHECKS["C15"] = dict(
          "instantiate_constants), structurally and by == / type."),
    note=TB + "ASCII text only, U+0020 as the blank.  format(value) is modelled for int, bool, None and lists of those; var<i> for digit strings only; names are interned injectively (proved).  Malformed input: only a silently wrong result counts, differing error behaviour does not.  auto_parse_program, infix generics beyond the correspondence, and non-ASCII text are not modelled.",
    design="5/C15")
+CHECKS["C07"] = dict(
+   technique="Coq proof of the tree-automaton model (reduce, read_product, read_union, map_states, minimise incl. Myhill-Nerode minimality) + extracted-model/implementation correspondence",
+   text=("Theorems (Props/C07.v, closed under the global context; any letter/state type with decidable equality, every dict-shaped automaton, every "
+         "tree): reduce keeps the language and returns a trim automaton (C07_reduce); read_product's run is the pair of runs and it accepts the "
+         "intersection (C07_product); read_union with the default fusion accepts the union and is trim (C07_union); injective map_states preserves "
+         "runs and acceptance (C07_map_states); minimise of a reduced automaton is deterministic with the same language (C07_minimise_language), "
+         "never runs out of fuel and raises KeyError exactly when a rule argument or final state is unreachable (C07_minimise_total), and has the "
+         "least number of states among all functional-table automata with the same language - full Myhill-Nerode argument, also as "
+         "len(M.states) <= len(B.states) (C07_minimise_minimal, C07_minimise_minimal_states).  The code before the fix: commit is modelled too: it "
+         "keeps the language (C07_pinned_*_language) but its reduce kept unproductive cycles, so reduce-then-minimise was not minimal "
+         "(C07_pinned_reduce_minimise_refuted).  Each run compares the extracted model with tree_automaton.py on generated automata (partial tables, "
+         "unreachable/unproductive/dead-cycle states, none/all final, cyclic and acyclic) and pairs: acceptance of every tree of a 100-1200 tree set "
+         "by the original and the resulting automaton, run states for product/map_states, KeyError behaviour of minimise, and the state count of "
+         "minimise against the model and against an independent table-filling Myhill-Nerode count in the harness (a test, not a proof)."),
+   note=TB + "Hypothesis of every theorem: the rule table is a dict (pairwise distinct (letter,args) keys) and state/letter equality is structural (hash collisions outside the model).  minimise is modelled with mapping=None, read_union with the default fusion; __mul__, size, alphabet, __str__ are not modelled.  'Reduced' = trim (every state reachable and productive).",
+   design="5/C07")
 NOT_YET = {}
 def main():
     props = [json.loads(l) for l in open(os.path.join(V, "properties.jsonl"))]
